@@ -30,9 +30,9 @@ W = Power.from_watts
 NOW = datetime(2024, 1, 1, tzinfo=timezone.utc)
 MAX_AGE = 60.0
 
-BUDGET = {"quick": {"C03": 2500, "C04": 1500}, "thorough": {"C03": 20000, "C04": 12000}}
+BUDGET = {"quick": {"C03": 1800, "C04": 1000}, "thorough": {"C03": 15000, "C04": 8000}}
 SIZE_BOUNDS = {
-    "quick": "<=6 actors, <=12 operations (C03) / <=6 proposals and <=14 probe values (C04); values on a grid of 5 W in [-250,250] plus floats",
+    "quick": "<=8 actors, <=20 operations (C03) / <=7 proposals, <=8 re-sent proposals (C04); values on a grid of 5 W in [-250,250] plus floats",
     "thorough": "<=6 actors, <=30 operations (C03) / <=7 proposals (C04)",
 }
 RULE = {
@@ -103,11 +103,11 @@ def _proposal_values(draw: Any) -> list[float | None]:
 
 @st.composite
 def _c03_case(draw: Any, max_ops: int) -> dict[str, Any]:
-    n = draw(st.integers(1, 6))
-    actors = [[draw(st.integers(0, 4)), f"s{i}"] for i in range(n)]
+    n = draw(st.sampled_from([1, 2, 3, 4, 5, 6, 6, 7, 8]))
+    actors = [[draw(st.integers(0, 9)), f"s{i}"] for i in range(n)]
     ops: list[list[Any]] = []
     for _ in range(draw(st.integers(1, max_ops))):
-        kind = draw(st.sampled_from(["p", "p", "p", "p", "a", "b"]))
+        kind = draw(st.sampled_from(["p", "p", "p", "p", "p", "p", "a", "b"]))
         if kind == "p":
             ops.append(["propose", draw(st.integers(0, n - 1))] + draw(_proposal_values()))
         elif kind == "a":
@@ -151,12 +151,15 @@ def _c04_case(draw: Any, max_n: int) -> dict[str, Any]:
         props.append({"prio": prio, "pref": pref, "bl": bl, "bu": bu})
     order = draw(st.permutations(list(range(n))))
     return {"kind": "C04", "sys": sb, "props": [props[i] for i in order],
-            "null_prio": draw(st.integers(0, 41)) / 2.0}
+            "null_prio": draw(st.integers(0, 41)) / 2.0,
+            # identical proposals sent again after the set is complete (replacement by an equal proposal
+            # must change nothing)
+            "resend": draw(st.lists(st.integers(0, n - 1), min_size=0, max_size=8))}
 
 
 def strategy(tier: str, pid: str = "C03") -> st.SearchStrategy[Any]:
-    max_ops = 12 if tier == "quick" else 30
-    max_n = 6 if tier == "quick" else 7
+    max_ops = 20 if tier == "quick" else 40
+    max_n = 7 if tier == "quick" else 8
     if pid == "C04":
         return _c04_case(max_n)
     # C03: mostly histories; proposal sets of the C04 generator are also valid C03 inputs
@@ -274,6 +277,7 @@ def _run_c03(case: dict[str, Any]) -> Verdict:
         props = [_proposal(actors[ai][0], actors[ai][1], *live[ai]["vals"]) for ai in sure]
         perms: Any = itertools.permutations(props)
         if len(props) > 5:
+            v.labels.add("six_or_more_live_proposals")
             import random  # deterministic: seeded from the case  # pylint: disable=import-outside-toplevel
 
             rng = random.Random(case["perm_seed"])
@@ -378,11 +382,13 @@ def _reference(sysb: dict[str, float], props: list[dict[str, Any]]) -> tuple[set
     return target, info
 
 
-def _feed(sysb: dict[str, float], props: list[dict[str, Any]]) -> tuple[Matryoshka, float]:
+def _feed(sysb: dict[str, float], props: list[dict[str, Any]], resend: list[int] | None = None) -> tuple[Matryoshka, float]:
     m = Matryoshka(timedelta(seconds=MAX_AGE))
     sb = _sb(sysb)
     t = m.calculate_target_power(COMP, None, sb, must_return_power=True)
-    for i, p in enumerate(props):
+    order = list(range(len(props))) + [i % len(props) for i in (resend or [])] if props else []
+    for i in order:
+        p = props[i]
         t = m.calculate_target_power(COMP, _proposal(p["prio"], f"s{i}", p["pref"], p["bl"], p["bu"]), sb,
                                      must_return_power=True)
     return m, (0.0 if t is None else t.as_watts())
@@ -400,8 +406,11 @@ def _run_c04(case: dict[str, Any]) -> Verdict:
         if flag:
             v.labels.add(k)
     sb = _sb(sysb)
+    resend = case.get("resend", [])
+    if len(resend) >= 2:
+        v.labels.add("proposals_resent")
     try:
-        mat, target = _feed(sysb, props)
+        mat, target = _feed(sysb, props, resend)
     except Exception as exc:  # pylint: disable=broad-except
         v.fail(f"raised {type(exc).__name__}: {exc}")
         return v
@@ -416,7 +425,7 @@ def _run_c04(case: dict[str, Any]) -> Verdict:
     for ai, actor in enumerate(props):
         stripped = [dict(q, pref=None) if q["prio"] < actor["prio"] else q for q in props]
         try:
-            m2, _ = _feed(sysb, stripped)
+            m2, _ = _feed(sysb, stripped, resend)
             report = m2.get_status(COMP, actor["prio"], sb)
         except Exception as exc:  # pylint: disable=broad-except
             v.fail(f"get_status raised {type(exc).__name__}: {exc}")
@@ -433,7 +442,7 @@ def _run_c04(case: dict[str, Any]) -> Verdict:
             ref2, _ = _reference(sysb, trial)
             if ref2 is None:
                 continue
-            _, t2 = _feed(sysb, trial)
+            _, t2 = _feed(sysb, trial, resend)
             adopted_is = t2 == x
             if adopted_says != adopted_is:
                 v.fail(
